@@ -7,7 +7,8 @@
 //   wire <kind> <param> <unit> ...                  all bytes the sender writes for the units (whole-buffer transport)
 //   feed <kind> <param> <sched> x<hex>              ARBITRARY bytes pushed into a receiver (hostile input)
 // kinds / param:  bin <enc 0..9> | tmpl <enc>/<cacheBytes> | text <eol 0=CRLF 1=LF 2=CR> | raw <minChunk> | slip 0
-//                 | ws <dir 0=server->client 1=client->server>/<handshake 0=none 1=whole 2=split> | m2c 0 | c2m 0 | u2c 0 | c2u 0
+//                 | ws <dir 0=server->client 1=client->server>/<handshake 0=none 1=whole 2=halves 4=byte by byte> or ws <dir>/3/<cut after byte>
+//                 | m2c 0 | c2m 0 | u2c 0 | c2u 0
 // units: bin/tmpl/ws/C kinds: x<flattened Message>;  text: lines `x..` joined by '/' (`-` = a Message without lines);
 //        raw/slip: chunks joined by '/'.
 // sched: items joined by ',' (`-` = empty):  a = queue the next unit on the sender;  e<n> = SetOutgoingEncoding(n) (bin, tmpl);
@@ -262,37 +263,35 @@ static bool parseSlash(const std::string & tok, std::vector<uint64_t> & v)
    return !v.empty();
 }
 
-static void pumpHandshake(Link & L, AbstractMessageIOGateway * a, Chan & ac, AbstractMessageIOGateway * b, Chan & bc, Collector & sink, bool split)
+// Hands the bytes waiting in (c)'s read pipe to (gw) in pieces, with a would-block (a DoInput call that finds nothing more) after each piece.
+// mode 1: all at once; 2: two halves; 3: cut after byte (cut); 4: one byte at a time (a would-block at EVERY byte boundary)
+static void inputPieces(AbstractMessageIOGateway * gw, Chan & c, Collector & sink, uint32_t mode, uint32_t cut)
 {
-   // a = client, b = server.  whole: every call moves all there is.  split: the transport hands the HTTP text over in two
-   // pieces (the second after a would-block), as a TCP connection may.
-   std::vector<uint32_t> none;
-   for (int round=0; round<8; round++)
+   Pipe & p = *c.rd;
+   std::deque<uint8_t> all; all.swap(p.q);
+   std::vector<uint32_t> none; c.setGrants(none, true);
+   size_t first = all.size();
+   if (mode == 2) first = all.size()/2; else if (mode == 3) first = (cut < all.size()) ? cut : all.size(); else if (mode == 4) first = 1;
+   while(!all.empty())
    {
-      ac.setGrants(none, true); bc.setGrants(none, true);
-      (void) a->DoOutput();
-      if (split)
-      {
-         // server sees the first half, then (next call) the rest
-         Pipe & p = *bc.rd;
-         std::deque<uint8_t> rest;
-         const size_t half = p.q.size()/2;
-         while(p.q.size() > half) {rest.push_front(p.q.back()); p.q.pop_back();}
-         (void) b->DoInput(sink);
-         while(!rest.empty()) {p.q.push_back(rest.front()); rest.pop_front();}
-      }
-      (void) b->DoInput(sink);
-      (void) b->DoOutput();
-      if (split)
-      {
-         Pipe & p = *ac.rd;
-         std::deque<uint8_t> rest;
-         const size_t half = p.q.size()/2;
-         while(p.q.size() > half) {rest.push_front(p.q.back()); p.q.pop_back();}
-         (void) a->DoInput(sink);
-         while(!rest.empty()) {p.q.push_back(rest.front()); rest.pop_front();}
-      }
-      (void) a->DoInput(sink);
+      for (size_t i=0; (i<first)&&(!all.empty()); i++) {p.q.push_back(all.front()); all.pop_front();}
+      (void) gw->DoInput(sink);
+      (void) gw->DoInput(sink);   // nothing there: a pure would-block call
+      if (mode != 4) first = all.size();
+   }
+}
+
+static void pumpHandshake(AbstractMessageIOGateway * cl, Chan & cc, AbstractMessageIOGateway * sv, Chan & sc, Collector & sink, uint32_t mode, uint32_t cut)
+{
+   std::vector<uint32_t> none;
+   for (int round=0; round<6; round++)
+   {
+      cc.setGrants(none, true); sc.setGrants(none, true);
+      if (mode == 4) {while(cl->DoOutput(7).GetByteCount() > 0) {}} else (void) cl->DoOutput();    // mode 4: the HTTP text also leaves in short writes
+      inputPieces(sv, sc, sink, mode, cut);
+      cc.setGrants(none, true); sc.setGrants(none, true);
+      if (mode == 4) {while(sv->DoOutput(7).GetByteCount() > 0) {}} else (void) sv->DoOutput();
+      inputPieces(cl, cc, sink, mode, cut);
    }
 }
 
@@ -335,7 +334,8 @@ static Link * makeLink(const std::string & kind, const std::string & param)
    }
    else if (kind == "ws")
    {
-      if ((pv.size() != 2)||(pv[0] > 1)||(pv[1] > 2)) {delete L; return NULL;}
+      // <dir>/<handshake>[/<cut>]: handshake 0 = none, 1 = whole, 2 = two halves, 3 = cut after byte <cut>, 4 = one byte at a time
+      if ((pv.size() < 2)||(pv[0] > 1)||(pv[1] > 4)||((pv[1] == 3) != (pv.size() == 3))||(pv.size() > 3)||((pv.size() == 3)&&(pv[2] > 100000))) {delete L; return NULL;}
       const bool clientSends = (pv[0] == 1);
       WebSocketMessageIOGateway * cl; WebSocketMessageIOGateway * sv;
       if (pv[1] == 0) {const bool t = true, f = false; cl = new WebSocketMessageIOGateway(&t); sv = new WebSocketMessageIOGateway(&f);}
@@ -350,7 +350,8 @@ static Link * makeLink(const std::string & kind, const std::string & param)
       if (pv[1] != 0)
       {
          Deliv junk; Collector sink(U_MSG, &junk);
-         pumpHandshake(*L, cl, clientSends ? L->txc : L->rxc, sv, clientSends ? L->rxc : L->txc, sink, pv[1] == 2);
+         pumpHandshake(cl, clientSends ? L->txc : L->rxc, sv, clientSends ? L->rxc : L->txc, sink, (uint32_t) pv[1], (pv.size() == 3) ? (uint32_t) pv[2] : 0);
+         if (junk.ncalls) oracleFail("a Message was delivered during the WebSocket handshake");
          if ((cl->IsHandshakeInProgress())||(sv->IsHandshakeInProgress())||(cl->GetUnrecoverableErrorStatus().IsError())||(sv->GetUnrecoverableErrorStatus().IsError()))
             oracleFail("WebSocket handshake did not complete (client in progress=" + u64s(cl->IsHandshakeInProgress()) + " server in progress=" + u64s(sv->IsHandshakeInProgress()) + " client err=" + u64s(cl->GetUnrecoverableErrorStatus().IsError()) + " server err=" + u64s(sv->GetUnrecoverableErrorStatus().IsError()) + ")");
          L->fwd.log.clear(); L->back.log.clear();
